@@ -408,6 +408,10 @@ func (d cffDict) getFontMatrix(op dictOp, isCIDKeyed bool) (res matrix.Matrix) {
 
 	for i, x := range xx {
 		xi, ok := x.(float64)
+		if xInt, isInt := x.(int32); isInt {
+			// integral entries (usually the zeros) are often stored as integers
+			xi, ok = float64(xInt), true
+		}
 		if !ok {
 			if isCIDKeyed {
 				return matrix.Identity
